@@ -22,7 +22,7 @@ import (
 	"verif/internal/model"
 )
 
-const rule = "cases (a): LeaseSet2 values (model-encoded, parsed; every identity type, 1..16 keys, 1..16 leases, options, offline blocks), recipient X25519 key pairs and cookies derived from seeds; per case every single byte position of the ciphertext (ephemeral key, nonce, body, tag) x {xor 0x01, xor 0x80, xor a drawn non-zero value}, truncation by 1 and extension by 1, and a private key whose public key differs. cases (b): (destination with an Ed25519 or RedDSA key that is a real curve point, secret of 32..64 bytes, instant) with instants drawn around UTC midnights +-1 s / +-1 ns between 1970 and 2200 and expressed in locations UTC-14h..+14h. Oracles: decrypt(encrypt(x)).Bytes() = x.Bytes(), again on a second call with the same key object, the caller's key and cookie unchanged; any modified byte, changed length or different key => error and nil value; CreateBlindedDestination equal for two instants iff same UTC calendar day (own civil-date computation), independent of location; output keeps encryption key, padding and certificate and differs in the signing key; VerifyBlindedSignature true with the factor derived for that secret and day, false for another day, another secret, and other factors (derived + k*L for every k that fits 32 bytes, single-bit differences at 39 positions per case, zero, L). Non-trivial: every case (each carries hundreds of modified ciphertexts); distinct by (plaintext, keys) / (destination, secret, instant)."
+const rule = "cases (a): LeaseSet2 values (model-encoded, parsed; every identity type, 1..16 keys, 1..16 leases, options, offline blocks), recipient X25519 key pairs and cookies derived from seeds; per case every single byte position of the ciphertext (ephemeral key, nonce, body, tag) x {xor 0x01, xor 0x80, xor a drawn non-zero value}, truncation by 1 and extension by 1, and a private key whose public key differs. cases (b): (destination with an Ed25519 or RedDSA key that is a real curve point, secret of 32..64 bytes, instant) with instants drawn around UTC midnights +-1 s / +-1 ns between 1970 and 2200 and expressed in locations UTC-14h..+14h. Oracles: decrypt(encrypt(x)).Bytes() = x.Bytes(), again on a second call with the same key object, the caller's key and cookie unchanged; any modified byte, changed length or different key => error and nil value; CreateBlindedDestination equal for two instants iff same UTC calendar day (own civil-date computation), independent of location; output keeps encryption key, padding and certificate and differs in the signing key; VerifyBlindedSignature true with the factor derived for that secret and day (also for both destinations re-read from their bytes), false for another day, another secret, and other factors (derived + k*L for every k that fits 32 bytes, single-bit differences at 39 positions per case, zero, L). Non-trivial: every case (each carries hundreds of modified ciphertexts); distinct by (plaintext, keys) / (destination, secret, instant)."
 
 func TestMain(m *testing.M) { ev.Main(m, "C16", rule) }
 
@@ -185,6 +185,9 @@ var propEnc = &ev.Prop[EncCase]{Sub: "encrypt", Quick: 240, Thorough: 12000,
 		if len(s.Leases) > 6 && rapid.IntRange(0, 3).Draw(t, "trim") > 0 {
 			s.Leases = s.Leases[:2]
 		}
+		if rapid.IntRange(0, 7).Draw(t, "noleases") == 0 {
+			s.Leases = nil // a lease count of zero is a well-formed LeaseSet2 on the wire
+		}
 		if len(s.Keys) > 4 && rapid.IntRange(0, 3).Draw(t, "trimk") > 0 {
 			s.Keys = s.Keys[:2]
 		}
@@ -289,6 +292,16 @@ func checkBlind(c BlindCase, r *ev.Rec) error {
 	}
 	if !encrypted_leaseset.VerifyBlindedSignature(b1, dest, alpha) {
 		return fmt.Errorf("VerifyBlindedSignature rejects the library's own blinded destination (signing type %d) with the factor derived for %s", id.SigType, day1)
+	}
+	// the check is about the two destinations, not about the objects that happen to hold them:
+	// both are re-read from their bytes (what a relying party has) and checked again
+	destAgain, _, err1 := destination.ReadDestination(append([]byte{}, id.Encode()...))
+	b1Again, _, err2 := destination.ReadDestination(append([]byte{}, x1...))
+	if err1 != nil || err2 != nil {
+		return fmt.Errorf("re-reading the original / blinded destination: %v / %v", err1, err2)
+	}
+	if !encrypted_leaseset.VerifyBlindedSignature(b1Again, destAgain, alpha) || !encrypted_leaseset.VerifyBlindedSignature(b1Again, dest, alpha) || !encrypted_leaseset.VerifyBlindedSignature(b1, destAgain, alpha) {
+		return fmt.Errorf("VerifyBlindedSignature accepts the blinded destination object CreateBlindedDestination returned, but not the same destinations re-read from their bytes")
 	}
 	other := alpha
 	other[0] ^= 1
